@@ -43,6 +43,11 @@ def _coerce_vary_rounds(value):
         return float(value)
 
 
+def _coerce_variant(value):
+    """parse variant string to integer, or leave it as variant name"""
+    return int(value) if value.isdigit() else value
+
+
 def _coerce_truncate_error(value):
     """parse truncate_error string ("true", "false", ...) to bool"""
     return as_bool(value, param="truncate_error")
@@ -63,6 +68,10 @@ _coerce_scheme_options = dict(
     vary_rounds=_coerce_vary_rounds,
     salt_size=int,
     truncate_error=_coerce_truncate_error,
+    block_size=int,
+    parallelism=int,
+    version=int,
+    variant=_coerce_variant,
 )
 
 
